@@ -28,16 +28,19 @@ import c13_fs
 from c13_fs import Crash, Effects
 
 RULE = ("Histories of load/protect/arrival/clean-shutdown/kill events on the real "
-        "FilesystemSecurityContext. Boundary table (always, in full): for every chunk boundary "
-        "10/30/70/150/310/630/1270 of the default configuration and every boundary of small "
-        "configurations (1,4) (2,16) (3,10) (5,5), the store at the boundary is crashed after each "
-        "of its 0..4 effects (plus a kill and no crash) and followed by reload + protects; one run "
-        "through all boundaries up to 30230 (chunk limit 10000); crash sweeps over the first-strike "
-        "store and over the clean-shutdown store; repeated crash/reload cycles; the "
-        "null-window corner; exhaustion from 2^40-1-k, k=0..12; lock. Random: state-aware event "
-        "lists (numbers around the live window, replays of accepted numbers, current/stale/no "
-        "echo, forged tags, crashes with probability ~8 %). A case is non-trivial when it has at "
-        "least one store and one reload after a stop; distinct by full event list.")
+        "FilesystemSecurityContext; corpus first. Boundary table (always, in full): for every chunk "
+        "boundary 0/10/30/70/150/310 of the default configuration and every boundary of the small "
+        "configurations (1,4) (2,16) (3,10) (5,5) (1,1), the store at the boundary dies after each of "
+        "its 0..5 effects (plus a kill and no crash) and is followed by reload, protects, clean "
+        "shutdown, reload; boundaries 630/1270 with crash points 1/3/4 in the quick tier (all, up to "
+        "5110, in the thorough tier); one lifetime through all boundaries up to 30230 (chunk limit "
+        "10000) dying in the store there; crash sweeps over the first-strike store and over the "
+        "clean-shutdown store; repeated crash/reload cycles; the null-window corner; chunk size 0 "
+        "(assert); exhaustion from 2^40-1-k, k=0..12; lock; window sizes 1/2/8/33. Random: "
+        "state-aware event lists (numbers around the live window, replays of accepted numbers, "
+        "current/stale/no echo, crashes with probability ~8 %); a quarter of them is the malformed "
+        "stream (operations without a process, second loads, forged tags). A case is non-trivial "
+        "when it has at least one store and one reload after a stop; distinct by full event list.")
 TRUSTED = ["harness shims for cbor2/cryptography/filelock (lock = lock-file existence), the transparent AEAD "
            "(harness/oscore_util.py) and the effect interception proxies (harness/c13_fs.py)"]
 ASSUMPTIONS = ["process-crash file semantics: os.replace is atomic and a completed os.replace survives the crash; "
